@@ -475,6 +475,7 @@ class C17(Check):
             op["as_path"] = (rng.random() < 0.5) if as_path is None else as_path
             op["path_form"] = rng.choice(["plain", "plain", "dot", "abs",
                                           "updir"])
+            op["positional_flag"] = rng.random() < 0.3
         elif kind != "cli_generate":
             w = (rng.random() < 0.75) if warn is None else warn
             if not w:
@@ -612,24 +613,33 @@ class C17(Check):
                 rel = f"{d}/../{d}/{b}"
             return Path(rel) if op.get("as_path") else rel
 
+        # the flag is an ordinary parameter: by keyword or by position
+        pos = bool(op.get("positional_flag"))
+
+        def call(fn, *args):
+            if pos:
+                return fn(*args, op["confirm"])
+            return fn(*args, confirm_overwrite=op["confirm"])
+
         if k == "lib_tum":
-            return lambda: evo.file_interface.write_tum_trajectory_file(
-                P(op["path"]), data.trajs[op["data"]],
-                confirm_overwrite=op["confirm"])
+            return lambda: call(evo.file_interface.write_tum_trajectory_file,
+                                P(op["path"]), data.trajs[op["data"]])
         if k == "lib_kitti":
-            return lambda: evo.file_interface.write_kitti_poses_file(
-                P(op["path"]), data.trajs[op["data"]],
-                confirm_overwrite=op["confirm"])
+            return lambda: call(evo.file_interface.write_kitti_poses_file,
+                                P(op["path"]), data.trajs[op["data"]])
         if k == "lib_res":
-            return lambda: evo.file_interface.save_res_file(
-                P(op["path"]), data.results[op["data"]],
-                confirm_overwrite=op["confirm"])
+            return lambda: call(evo.file_interface.save_res_file,
+                                P(op["path"]), data.results[op["data"]])
         if k == "lib_table":
             def f():
                 df = evo.pandas_bridge.result_to_df(data.results[op["data"]])
-                evo.pandas_bridge.save_df_as_table(
-                    df, P(op["path"]), format_str=op["fmt"], transpose=True,
-                    confirm_overwrite=op["confirm"])
+                if pos:
+                    evo.pandas_bridge.save_df_as_table(
+                        df, P(op["path"]), op["fmt"], True, op["confirm"])
+                else:
+                    evo.pandas_bridge.save_df_as_table(
+                        df, P(op["path"]), format_str=op["fmt"],
+                        transpose=True, confirm_overwrite=op["confirm"])
             return f
         if k in ("lib_export", "lib_serialize"):
             def f():
@@ -641,11 +651,9 @@ class C17(Check):
                     pc.add_figure(name, fig)
                 try:
                     if k == "lib_export":
-                        pc.export(P(op["path"]) if False else op["path"],
-                                  confirm_overwrite=op["confirm"])
+                        call(pc.export, op["path"])
                     else:
-                        pc.serialize(op["path"],
-                                     confirm_overwrite=op["confirm"])
+                        call(pc.serialize, op["path"])
                 finally:
                     pc.close()
             return f
